@@ -8,7 +8,8 @@ Driver.  Runs the REAL ``mesonbuild.mformat.Formatter(...).format(text, path)`` 
   (2) every build file of the repository corpus once (and mutated variants that still parse);
   (3) directed probes for every listed finding and negative controls;
   (4) the real ``meson format`` command (fork server): -q, -d, -i, -o, plain stdout, stdin, -r, -c / meson.format
-      auto-discovery, -e, CRLF/CR files;
+      auto-discovery, -e, CRLF/CR files; multi-file runs (-r and several sources) under FILE-SPECIFIC .editorconfig
+      sections, judged against a fresh Formatter per file (the result for a file must not depend on earlier files);
 while vf.monitors.c16_contracts (oracle: the independent reader vf.ref.refmeson) judges every run:
   output parses (real parser and reference parser); same tree modulo exactly the documented simplifications; same
   comments in the same order; format(format(x)) == format(x); two documented option effects (insert_final_newline; a
@@ -1046,6 +1047,192 @@ def cli_probes(acc: Acc) -> None:
         shutil.rmtree(sub, ignore_errors=True)
 
 
+# ---- several files in one run: the result for a file must not depend on the files handled before it ----
+
+SENSITIVE_TAIL = ("if true\n    xs = [1]\n    foreach i : xs\n        message(i)\n    endforeach\nendif\n"
+                  "yy = long_function_name(argument_number_one, argument_number_two, argument_three)\n")
+
+# per-file .editorconfig keys: what a "donor" section sets and an other file's section does not
+EC_DONOR = (('indent_size = 2',), ('indent_size = 3', 'max_line_length = 40'), ('indent_style = tab',), ('indent_size = 8', 'tab_width = 8'),
+            ('max_line_length = 40',), ('indent_style = space', 'indent_size = 1', 'max_line_length = 120'))
+EC_OTHER = ((), (), ('end_of_line = lf',), ('insert_final_newline = true',), ('tab_width = 2',), ('end_of_line = lf', 'tab_width = 8'))
+
+
+def fresh_format(cfgfile: T.Optional[str], text: str, path: str) -> T.Tuple[T.Optional[str], str]:
+    """(output, effective end_of_line) of a NEW real Formatter that has seen no other file (editorconfig on)."""
+    from mesonbuild import mformat
+    try:
+        f = mformat.Formatter(Path(cfgfile) if cfgfile else None, True, False)
+        out = f.format(text, Path(path))
+        return out, f.current_config.end_of_line
+    except Exception:   # noqa: BLE001
+        return None, 'native'
+
+
+def fixed_point(cfgfile: T.Optional[str], text: str, path: str) -> T.Optional[str]:
+    for _ in range(4):
+        out, _e = fresh_format(cfgfile, text, path)
+        if out is None:
+            return None
+        if out == text:
+            return out
+        text = out
+    return None      # one of the listed idempotence findings is in the way: the caller skips the case
+
+
+def multi_tree(rng: random.Random, root: str, directed: bool = False) -> T.Optional[dict]:
+    """A project of 3-4 build files with FILE-SPECIFIC .editorconfig sections.  The files are visited in the order
+    `order`; every file is a fixed point of the formatter under its own configuration, except the last one (victim), whose
+    content is a fixed point under the configuration of an earlier file (donor)."""
+    g = G.Gen(rng, noise=0.4, size=2, ml_backslash=False)
+
+    def prog() -> str:
+        for _ in range(20):
+            t = universal(''.join(g.program()).encode('utf-8'))
+            if parses(t) and 'subdir' not in t and 'subproject' not in t:
+                return (t if t.endswith('\n') else t + '\n') + SENSITIVE_TAIL
+        return SENSITIVE_TAIL
+
+    if directed:
+        rels = ['meson.build', 'lib/meson.build', 'tools/meson.build']
+        sections = {'lib/meson.build': ('indent_size = 2', 'max_line_length = 40'), 'tools/meson.build': ('end_of_line = lf',)}
+    else:
+        names = rng.sample(['lib', 'tools', 'src', 'a/d', 'doc'], rng.choice((2, 3)))
+        rels = ['meson.build'] + [n + '/meson.build' for n in names]
+        sections = {}
+        # the section [meson.build] of the root file matches every file (suffix search), so the donor is a sub-directory
+        donor_i = rng.randrange(1, len(rels) - 1)
+        for i, rel in enumerate(rels):
+            if i == donor_i:
+                sections[rel] = rng.choice(EC_DONOR)
+            elif i == len(rels) - 1 or i == 0:
+                sections[rel] = rng.choice(EC_OTHER)
+            else:
+                sections[rel] = rng.choice(EC_OTHER + EC_DONOR)
+    ec = 'root = true\n'
+    if not directed and rng.random() < 0.3:
+        ec += '\n[*]\ncharset = utf-8\n'
+    for rel, keys in sections.items():
+        if keys or rng.random() < 0.5:
+            ec += f'\n[{rel}]\n' + ''.join(k + '\n' for k in keys)
+    cfgfile: T.Optional[str] = None
+    files: T.Dict[str, str] = {'.editorconfig': ec}
+    via_key = (not directed) and rng.random() < 0.4
+    if via_key or ((not directed) and rng.random() < 0.3):
+        lines = [f'{k} = true' for k in rng.sample(['space_array', 'wide_colon', 'kwargs_force_multiline'], rng.randint(0, 2))]
+        if via_key:
+            lines.append('use_editor_config = true')
+        files['meson.format'] = '\n'.join(lines) + '\n'
+        cfgfile = os.path.join(root, 'meson.format')
+    runner.write_tree(root, files)
+    texts: T.Dict[str, str] = {}
+    for i, rel in enumerate(rels):
+        body = prog()
+        if i == 0:
+            body += ''.join(f"subdir('{os.path.dirname(r)}')\n" for r in rels[1:])
+        texts[rel] = body
+    content: T.Dict[str, str] = {}
+    for rel in rels:
+        fp = fixed_point(cfgfile, texts[rel], os.path.join(root, rel))
+        if fp is None:
+            return None
+        content[rel] = fp
+    victim = rels[-1]
+    donors = [r for r in rels[:-1] if sections.get(r)]
+    if donors:
+        donor = donors[-1] if directed else rng.choice(donors)
+        fp = fixed_point(cfgfile, texts[victim], os.path.join(root, donor))
+        # formatted as the donor's section wants it; text only (the bytes written below use the victim's own line ending)
+        if fp is not None:
+            content[victim] = fp
+    return {'rels': rels, 'content': content, 'cfgfile': cfgfile, 'via_key': via_key, 'editorconfig': ec}
+
+
+def cli_multifile(acc: Acc, idx: int, seed: int, directed: bool = False) -> None:
+    """Several files handled by ONE formatter: (1) in-process, one Formatter object formatting the files in sequence must
+    give what a fresh Formatter gives for each file; (2) `meson format -e -q` over all files exits non-zero iff a
+    single-file run would change one of them; (3) after `meson format -e -i` over all files every file holds exactly what
+    a single-file run writes.  Runs are recursive (-r from the root file) or with all files as explicit sources."""
+    assert ENV is not None
+    from mesonbuild import mformat
+    rng = random.Random(f'{PID}:{seed}:climulti:{idx}')
+    root = os.path.join(ENV.root, f'multi{seed}-{idx}' + ('d' if directed else ''))
+    os.makedirs(root, exist_ok=True)
+    import shutil
+    try:
+        tree = multi_tree(rng, root, directed)
+        if tree is None:
+            acc.add('skipped:multi-file-case-without-fixed-point')
+            return
+        rels, content, cfgfile = tree['rels'], tree['content'], tree['cfgfile']
+        recursive = directed or rng.random() < 0.5
+        order = list(rels) if recursive else [rels[0]] + rng.sample(rels[1:-1], len(rels) - 2) + [rels[-1]]
+        # expectation per file: a fresh Formatter (= a single-file run)
+        want: T.Dict[str, bytes] = {}
+        data: T.Dict[str, bytes] = {}
+        for rel in rels:
+            own, eol_name = fresh_format(cfgfile, content[rel], os.path.join(root, rel))
+            if own is None:
+                acc.add('skipped:multi-file-formatter-raised')
+                return
+            eol = EOLS.get(eol_name, os.linesep)
+            want[rel] = own.replace('\n', eol).encode('utf-8')
+            data[rel] = content[rel].replace('\n', eol).encode('utf-8')
+        runner.write_tree(root, data)
+        would_change = {rel: want[rel] != data[rel] for rel in rels}
+        acc.add('cases:cli')
+        acc.add('cli:mode-multi-' + ('recursive' if recursive else 'sources'))
+        acc.add('cli:multi-victim-would-change' if would_change[rels[-1]] else 'cli:multi-victim-clean')
+        acc.keys.append(common.digest(['climulti', recursive, tree['editorconfig'], sorted(would_change.items())]))
+        wit = {'kind': 'cli-multi', 'origin': f'climulti:{idx}', 'editorconfig': tree['editorconfig'], 'order': order,
+               'recursive': recursive, 'meson.format': open(cfgfile).read() if cfgfile else None,
+               'files': {k: v[:3000] for k, v in content.items()}}
+
+        def fail(mech: str, detail: dict) -> None:
+            acc.mechs[mech] += 1
+            ws = acc.witnesses.setdefault(mech, [])
+            if len(ws) < WITNESS_PER_MECH:
+                ws.append(dict(wit, detail=detail))
+
+        # (1) in-process: one Formatter object, several files
+        acc.add('contract:formatter-stateless')
+        try:
+            f = mformat.Formatter(Path(cfgfile) if cfgfile else None, True, False)
+            for rel in order:
+                out = f.format(content[rel], Path(os.path.join(root, rel)))
+                eol = EOLS.get(f.current_config.end_of_line, os.linesep)
+                if out.replace('\n', eol).encode('utf-8') != want[rel]:
+                    fail('formatter-result-depends-on-previously-formatted-files',
+                         {'file': rel, 'after': order[:order.index(rel)], 'got': out[:600], 'fresh_formatter': want[rel][:600].decode('utf-8', 'replace')})
+                    break
+        except Exception as e:   # noqa: BLE001
+            fail('formatter-exception:' + type(e).__name__, {'exception': str(e)[:300]})
+        # (2)+(3) the command
+        argv = ['format'] + ([] if tree['via_key'] else ['-e'])
+        srcs = ['-r', 'meson.build'] if recursive else order
+        acc.add('cli:invocations', 2)
+        r = runner.meson(argv + ['-q'] + srcs, cwd=root, timeout=60)
+        acc.add('contract:cli-multi-file-check-status')
+        if r.rc not in (0, 1) or r.traceback:
+            fail('cli-multi-file-check-crashed', r.brief())
+        elif (r.rc == 1) != any(would_change.values()):
+            fail('cli-multi-file-check-status-differs-from-single-file-runs', {'rc': r.rc, 'single_file_would_change': would_change})
+        r = runner.meson(argv + ['-i'] + srcs, cwd=root, timeout=60)
+        acc.add('contract:cli-multi-file-inplace')
+        if r.rc != 0 or r.traceback:
+            fail('cli-multi-file-inplace-failed', r.brief())
+        else:
+            for rel in rels:
+                with open(os.path.join(root, rel), 'rb') as fh:
+                    got = fh.read()
+                if got != want[rel]:
+                    fail('cli-multi-file-inplace-differs-from-single-file-result',
+                         {'file': rel, 'got': got[:600].decode('utf-8', 'replace'), 'single_file_run': want[rel][:600].decode('utf-8', 'replace')})
+                    break
+    finally:
+        shutil.rmtree(root, ignore_errors=True)
+
+
 def worker_cli(task: T.Tuple[int, int, int]) -> dict:
     seed, first, count = task
     assert ENV is not None
@@ -1059,9 +1246,12 @@ def worker_cli(task: T.Tuple[int, int, int]) -> dict:
     acc = Acc()
     if first == 0:
         cli_probes(acc)
+        cli_multifile(acc, 0, 0, directed=True)
     for i in range(first, first + count):
         if i % 8 == 7:
             cli_recursive(acc, i, seed)
+        elif i % 8 == 3:
+            cli_multifile(acc, i, seed)
         else:
             cli_case(acc, i, seed, ENV.root)
     return acc.data()
@@ -1211,6 +1401,8 @@ def main() -> int:
     for name in ('contract:no-internal-error', 'contract:output-parses-real', 'contract:output-parses-ref', 'contract:same-tree',
                  'contract:same-comments-nonempty', 'contract:idempotent', 'contract:cli-check-status', 'contract:cli-inplace-bytes',
                  'contract:cli-output-bytes', 'contract:cli-stdout', 'contract:cli-diff-output', 'contract:cli-recursive-inplace',
+                 'contract:cli-multi-file-inplace', 'contract:cli-multi-file-check-status', 'contract:formatter-stateless',
+                 'cli:multi-victim-would-change',
                  'probe:run', 'probe:cli-run', 'probe:split-run', 'contract:final-newline', 'cases:corpus', 'cases:gen', 'accepted:literal-respelled',
                  'pass:TrimWhitespaces.visit_StringNode', 'pass:TrimWhitespaces.visit_FunctionNode',
                  'pass:ArgumentFormatter.visit_ArgumentNode', 'pass:ComputeLineLengths.visit_ArgumentNode', 'rounds:2'):
